@@ -222,6 +222,14 @@ def build_programs(root):
     for i in range(3):
         objs.append(_asm(d, f"n{i}", f".globl f{i}\n.text\nf{i}:\n    call undef_n{i}@PLT\n    ret\n"))
     P("shared-no-undefined", "layout", objs, extra=["-shared", "--no-undefined"], k=3)
+    # 14./15. the SAME undefined symbol referenced from two objects whose processing takes very different time (one sits behind
+    # 150000 relocations): which reference is named must not depend on who gets there first
+    for nm, extra, fail in (("undef-same-symbol", [], True), ("warn-same-symbol", ["--warn-unresolved-symbols"], False)):
+        d = os.path.join(root, nm); os.makedirs(d)
+        heavy = ".globl heavy\n.text\nheavy:\n" + "    call helper\n" * 150000 + "    call missing_everywhere\n    ret\n"
+        light = ".globl light\n.text\nlight:\n    call missing_everywhere\n    ret\n.globl helper\nhelper: ret\n"
+        objs = [_main(d, ["heavy", "light"]), _asm(d, "heavy", heavy), _asm(d, "light", light)]
+        P(nm, "layout" if fail else "warn", objs, extra=extra, fail=fail, k=2)
     return progs
 
 
